@@ -1756,6 +1756,11 @@ func listenerDialledCases(t *testing.T, id *int, lg *vlog, rep *vreport, rng *vr
 		&net.UDPAddr{IP: net.ParseIP("fe80::1"), Port: 9000},
 		&net.UDPAddr{IP: net.ParseIP("::ffff:10.1.1.1"), Port: 9000},
 		&net.UDPAddr{IP: net.ParseIP("2001:db8::a01:101"), Port: 9000},
+		// a session dialled to a wildcard address (":9000", "0.0.0.0:9000", "[::]:9000") does not thereby
+		// accept every address that uses that port
+		&net.UDPAddr{IP: nil, Port: 9000},
+		&net.UDPAddr{IP: net.IPv4zero, Port: 9000},
+		&net.UDPAddr{IP: net.IPv6unspecified, Port: 9000},
 		listenerAddr{"10.1.1.1:9000"},
 		listenerAddr{"[fe80::1%eth0]:9000"},
 		listenerAddr{"peer-x"},
